@@ -6,7 +6,8 @@ A *skeleton* is a sequence of slots; slot i is one instruction.  Slot forms (JSO
     ("T",)        div-int v0, v0, v0                  plain, can throw
     ("R",)        return-void
     ("X",)        throw v0
-    ("G", t)      goto -> slot t                      (goto/32 when t is the slot itself: a zero offset is only legal there)
+    ("G", t)      goto -> slot t                      (forward: goto 10t; backward: goto/16; the slot itself: goto/32, the
+                                                      only form for which a zero offset is legal)
     ("I", t)      if-eqz v0 -> slot t
     ("K", t, u)   packed-switch v0 -> {t, u}          own payload, first_key 0
     ("S", t, u)   sparse-switch v0 -> {t, u}          own payload, keys 10, 20
@@ -176,7 +177,9 @@ def build(sk, tries=(), layout="aligned", orphan=None, share_handler=False):
             pos += psize(p)
         return res, pos
 
-    sizes = [(3 if (s[0] == "G" and s[1] == i) else UNITS.get(s[0], 1)) for i, s in enumerate(slots)]
+    def gsize(i, s):          # goto: forward 10t, backward 20t (goto/16), to itself 30t (goto/32; the only legal zero offset)
+        return 3 if s[1] == i else (2 if s[1] < i else 1)
+    sizes = [(gsize(i, s) if s[0] == "G" else UNITS.get(s[0], 1)) for i, s in enumerate(slots)]
     pos = 0
     if first:
         pos = 2                                                           # goto/16
@@ -254,7 +257,7 @@ def build(sk, tries=(), layout="aligned", orphan=None, share_handler=False):
             b, kind, tg = _THROW, "throw", ()
         elif k == "G":
             d = slot_off[s[1]] - slot_off[i]
-            b = _E("goto/32", 0) if s[1] == i else _E("goto", d)
+            b = _E("goto/32", 0) if s[1] == i else (_E("goto/16", d) if s[1] < i else _E("goto", d))
             kind, tg = "goto", (slot_off[s[1]] * 2,)
         elif k == "I":
             b = _E("if-eqz", 0, slot_off[s[1]] - slot_off[i])
